@@ -3,6 +3,8 @@ import J1939.Props.C02
 #print axioms J1939.Props.C02.poolGet_none_iff
 #print axioms J1939.Props.C02.poolGet_some
 #print axioms J1939.Props.C02.c02_accept_takes_one
+#print axioms J1939.Props.C02.processCm_keeps_pools
+#print axioms J1939.Props.C02.processDt_keeps_pools
 #print axioms J1939.Props.C02.c02_notify_keeps_pools
 #print axioms J1939.Props.C02.c02_capacity
 #print axioms J1939.Props.C02.c02_chunks_get
